@@ -6,6 +6,7 @@ import ast
 from fractions import Fraction
 
 from .. import flow as flw
+from .. import pmatch
 from ..model import calls_in, unparse, walk_no_nested
 from ..norm import Normalizer, calls_to, kwarg, mentions_name, show, subterms
 from ..rules import calls_from, r_bind_literal, r_guard_interval, return_terms
@@ -132,7 +133,7 @@ def run(ctx):  # noqa: C901
                 ctx.ob("R-ENUM", we, "coefficient j pairs with the (j+1)-th permutation (the identity is skipped)", ok,
                        "alpha[i-1] with permutation i" if ok else f"alpha[{show(al[0][2])}] is paired with permutation {show(pi_t)}", n)
             ok_sub = isinstance(n.op, ast.Sub)
-            ctx.ob("R-PRED", we, "rho = I - sum alpha_j P_j, then normalised", ok_sub and any(unparse(x).replace(" ", "") == "rho=rho/np.trace(rho)" for x in walk_no_nested(we.node)),
+            ctx.ob("R-PRED", we, "rho = I - sum alpha_j P_j, then normalised", (pmatch.tri(pmatch.find(we.node, ["_X = _X / np.trace(_X)", "_X /= np.trace(_X)", "return _X / np.trace(_X)"]), pmatch.has_call(m, we, "numpy.trace")) if ok_sub else False),
                    "subtracted and divided by the trace")
     rets, Ni = return_terms(m, we, inline=False)
     scal = [t for rn, facts, t in rets if "swap_operator" in repr(t)]
@@ -175,10 +176,21 @@ def run(ctx):  # noqa: C901
     match_exhaustive(ctx, S("domino"), "idx", 0, 8)
     match_exhaustive(ctx, M("gell_mann"), "ind", 0, 8)
     # ghz / w / dicke normalisation
-    okn = any(isinstance(n, ast.Assign) and unparse(n).replace(" ", "") == "coeff=coeff/norm" for n in walk_no_nested(gh.node))
-    ctx.ob("R-PRED", gh, "coefficients normalised to a unit vector", okn, "coeff / ||coeff||")
-    okd = any(isinstance(n, ast.AugAssign) and unparse(n).replace(" ", "") == "dicke_state/=np.sqrt(num_term)" for n in walk_no_nested(dk.node))
-    ctx.ob("R-PRED", dk, "equal superposition normalised by sqrt(binom(n,k))", okd, "divided by sqrt(num_term)")
+    # coeff / ||coeff|| where the divisor is (a local bound to) np.linalg.norm(coeff)
+    okn = None
+    fdn = pmatch.find(gh.node, ["coeff = coeff / _N", "coeff /= _N"])
+    if fdn:
+        nd = fdn[0][0]
+        dv = nd.value.right if isinstance(nd, ast.Assign) else nd.value
+        tdv = Normalizer(m, gh, inline=True)(dv)
+        okn = tdv[0] == "call" and tdv[1] == "numpy.linalg.norm" and tdv[2] and tdv[2][0] == ("n", "coeff")
+    elif not pmatch.has_call(m, gh, "numpy.linalg.norm"):
+        okn = False
+    ctx.ob("R-PRED", gh, "coefficients normalised to a unit vector", okn, "coeff / ||coeff||" if okn else "the coefficient vector is no longer divided by its norm", required=okn is not None)
+    # dicke: divided by sqrt(number of terms), the number of terms being the count of the enumerated basis states
+    fdd = pmatch.find(dk.node, ["_S /= np.sqrt(_N)", "_S = _S / np.sqrt(_N)", "return _S / np.sqrt(_N)", "_S /= math.sqrt(_N)", "_S = _S / math.sqrt(_N)"])
+    okd = pmatch.tri(fdd, any(isinstance(n, ast.Call) and getattr(n.func, "attr", "") == "sqrt" for n in walk_no_nested(dk.node)))
+    ctx.ob("R-PRED", dk, "equal superposition normalised by sqrt(binom(n,k))", okd, "divided by sqrt(number of terms)" if okd else "normalisation by the square root of the number of terms is gone" if okd is False else "normalisation not recognised", required=okd is not None)
     # isotropic and friends: projector with dagger, unnormalised maximally entangled vector
     for nm in ("isotropic", "gen_bell", "chessboard"):
         dagger_projectors(ctx, S(nm))
@@ -195,7 +207,7 @@ def run(ctx):  # noqa: C901
         ctx.ob("R-PRED", iso, "isotropic == (1 - alpha) I/d^2 + alpha |psi><psi|", ok, "weights (1 - alpha) and alpha" if ok else f"returns {show(t)[:110]}", rn)
     me = S("max_entangled")
     Nm = Normalizer(m, me, inline=False)
-    okme = any(isinstance(n, ast.If) and unparse(n.test) == "is_normalized" and any(unparse(s).replace(" ", "") == "psi=psi/np.sqrt(dim)" for s in n.body) for n in walk_no_nested(me.node))
+    okme = any(isinstance(n, ast.If) and unparse(n.test) == "is_normalized" and any(pmatch.match("_X = _X / np.sqrt(dim)", s) is not None or pmatch.match("_X /= np.sqrt(dim)", s) is not None for s in n.body) for n in walk_no_nested(me.node))
     ctx.ob("R-PRED", me, "normalised form divides vec(I) by sqrt(dim), only when requested", okme, "if is_normalized: psi / sqrt(dim)" if okme else "normalisation changed")
     mm = S("max_mixed")
     rets, _ = return_terms(m, mm, inline=False)
@@ -212,12 +224,31 @@ def run(ctx):  # noqa: C901
                and "gen_pauli_z" in repr(t[1][1]) and t[1][1][2][1] == ("n", "k_2") for _, _, t in rets)
     ctx.ob("R-PRED", gp, "generalised Pauli == X^k1 Z^k2 (matrix powers)", okgp, "matrix_power(X, k1) @ matrix_power(Z, k2)" if okgp else "form changed")
     fz = M("gen_pauli_z")
-    okfz = "2j * pi / dim" in unparse(fz.node) and "range(dim)" in unparse(fz.node)
-    ctx.ob("R-PRED", fz, "clock matrix == diag(exp(2 pi i k / d)), k < d", okfz, "d-th roots of unity")
+    from fractions import Fraction as _Fr
+    rz, Nz = return_terms(m, fz, inline=True)
+    okfz = None
+    for _rn, _fa, t in rz:
+        cm = [s_ for s_ in subterms(t) if isinstance(s_, tuple) and s_ and s_[0] == "comp"]
+        if t[0] == "call" and t[1] == "numpy.diag" and cm:
+            body, gens = cm[0][2][0], cm[0][3]
+            bv = gens[0][0]
+            # exp(k * 2j*pi/dim) : the exponent is linear in k with coefficient 2 pi i / dim
+            ex = body[2][0] if body[0] == "call" and str(body[1]).endswith("exp") and body[2] else None
+            want = Nz._mul([bv, Nz(ast.parse("2j * pi / dim", mode="eval").body)]) if ex is not None else None
+            rng_ok = gens[0][1] == ("call", "builtins.range", (("n", "dim"),), ())
+            okfz = bool(ex is not None and ex == want and rng_ok)
+    ctx.ob("R-PRED", fz, "clock matrix == diag(exp(2 pi i k / d)), k < d", okfz, "d-th roots of unity" if okfz else "diagonal is not exp(2 pi i k / d) for k in range(d)" if okfz is False else "construction not recognised", required=okfz is not None)
     fo = M("fourier")
     rets, _ = return_terms(m, fo, inline=True)
-    okfo = any("numpy.sqrt" in repr(t) and "numpy.power" in repr(t) for _, _, t in rets) and "2 * 1j * np.pi / dim" in unparse(fo.node)
-    ctx.ob("R-PRED", fo, "Fourier matrix == omega^(jk) / sqrt(d)", okfo, "unitary normalisation 1/sqrt(d)")
+    Nfo = Normalizer(m, fo, inline=True)
+    want_root = Nfo(ast.parse("np.exp(2 * 1j * np.pi / dim)", mode="eval").body)
+    okfo = None
+    for _rn, _fa, t in rets:
+        if t[0] == "/" and t[2] == ("call", "numpy.sqrt", (("n", "dim"),), ()) and t[1][0] == "call" and t[1][1] == "numpy.power" and len(t[1][2]) == 2:
+            okfo = t[1][2][0] == want_root
+        elif "numpy.power" in repr(t) or "numpy.exp" in repr(t):
+            okfo = False if "numpy.sqrt" not in repr(t) else None
+    ctx.ob("R-PRED", fo, "Fourier matrix == omega^(jk) / sqrt(d)", okfo, "root of unity exp(2 pi i / d), unitary normalisation 1/sqrt(d)" if okfo else "root of unity or the 1/sqrt(d) normalisation changed" if okfo is False else "construction not recognised", required=okfo is not None)
     ggm = M("gen_gell_mann")
     Ngg = Normalizer(m, ggm, inline=False)
     offd = [Ngg(n.value) for n in walk_no_nested(ggm.node) if isinstance(n, ast.Assign) and isinstance(n.targets[0], ast.Name) and n.targets[0].id == "gm_op" and "e_mat" in unparse(n.value)]
